@@ -41,6 +41,10 @@ func (eval Evaluator) Trace(ctIn *Ciphertext, logN int, opOut *Ciphertext) (err 
 
 	params := eval.GetRLWEParameters()
 
+	// The domain of the input is read once: when the operation is done in place the flag of the
+	// input is also the flag of the receiver, which is updated along the way.
+	isNTT := ctIn.IsNTT
+
 	level := utils.Min(ctIn.Level(), opOut.Level())
 
 	opOut.Resize(opOut.Degree(), level)
@@ -80,7 +84,7 @@ func (eval Evaluator) Trace(ctIn *Ciphertext, logN int, opOut *Ciphertext) (err 
 		ringQ.MulScalarBigint(ctIn.Value[0], NInv, opOut.Value[0])
 		ringQ.MulScalarBigint(ctIn.Value[1], NInv, opOut.Value[1])
 
-		if !ctIn.IsNTT {
+		if !isNTT {
 			ringQ.NTT(opOut.Value[0], opOut.Value[0])
 			ringQ.NTT(opOut.Value[1], opOut.Value[1])
 			opOut.IsNTT = true
@@ -116,7 +120,7 @@ func (eval Evaluator) Trace(ctIn *Ciphertext, logN int, opOut *Ciphertext) (err 
 			ringQ.Add(opOut.Value[1], buff.Value[1], opOut.Value[1])
 		}
 
-		if !ctIn.IsNTT {
+		if !isNTT {
 			ringQ.INTT(opOut.Value[0], opOut.Value[0])
 			ringQ.INTT(opOut.Value[1], opOut.Value[1])
 			opOut.IsNTT = false
@@ -334,6 +338,10 @@ func (eval Evaluator) InnerFunction(ctIn *Ciphertext, batchSize, n int, f func(a
 
 	params := eval.GetRLWEParameters()
 
+	// The domain of the input is read once: when the operation is done in place the flag of the
+	// input is also the flag of the receiver, which is updated along the way.
+	isNTT := ctIn.IsNTT
+
 	levelQ := utils.Min(ctIn.Level(), opOut.Level())
 
 	ringQ := params.RingQ().AtLevel(levelQ)
@@ -352,7 +360,7 @@ func (eval Evaluator) InnerFunction(ctIn *Ciphertext, batchSize, n int, f func(a
 	*ctInNTT.MetaData = *ctIn.MetaData
 	ctInNTT.IsNTT = true
 
-	if !ctIn.IsNTT {
+	if !isNTT {
 		ringQ.NTT(ctIn.Value[0], ctInNTT.Value[0])
 		ringQ.NTT(ctIn.Value[1], ctInNTT.Value[1])
 	} else {
@@ -450,7 +458,7 @@ func (eval Evaluator) InnerFunction(ctIn *Ciphertext, batchSize, n int, f func(a
 		}
 	}
 
-	if !ctIn.IsNTT {
+	if !isNTT {
 		ringQ.INTT(opOut.Value[0], opOut.Value[0])
 		ringQ.INTT(opOut.Value[1], opOut.Value[1])
 		opOut.IsNTT = false
